@@ -1,8 +1,8 @@
 CONSTANTS
   D = 3
   MaxEpoch = 1
-  MaxLeaves = 1
-  Export = FALSE
+  MaxLeaves = 3
+  Export = TRUE
   MaxU = 3
   MaxI = 2
   PrevEpochChecked = TRUE
@@ -11,5 +11,5 @@ CONSTANTS
   TopLabelChecked = TRUE
 INIT Init
 NEXT Next
-INVARIANTS EmptyTreeAbsenceProvable
+INVARIANTS ExportState AuditSound AuditDupRejected
 CHECK_DEADLOCK FALSE
